@@ -148,8 +148,9 @@ def r11_3(ctx):
     ok = bool(resets) and all(R.root_of(oa, t.value) == 'limiter' for (dn, t) in resets)
     ctx.ob('R11.3', 'on_ack:resets-the-pools-limiter', ok, oa, resets[0][0] if resets else None,
            '<limiter>.R = 0 where the limiter is the object the pool handed to the result handler')
-    ok = bool(resets) and oa.cfg.must_pass([oa.cfg.entry], [oa.cfg.exit, oa.cfg.raise_exit],
-                                          [dn for (dn, t) in resets])[0]
+    r = oa.cfg.reach([oa.cfg.entry.id], block_nodes={dn.id for (dn, t) in resets},
+                     block_edges=q.logging_x_edges(oa), include_src=True)
+    ok = bool(resets) and oa.cfg.exit.id not in r and oa.cfg.raise_exit.id not in r
     ctx.ob('R11.3', 'on_ack:reset-on-every-path', ok, oa, None, 'not conditional on the job still being cached')
     sb = m.func('pool:Supervisor.body')
     cfg = sb.cfg
